@@ -10,11 +10,14 @@ import (
 	"strings"
 
 	"verifharness/lib"
+	"verifharness/lib/httpstor"
 	"verifharness/lib/stor"
 )
 
 type Input struct {
 	Ops []stor.Op `json:"ops"`
+	// the same history through POST /ingest and GET /render?format=json on the real server
+	HTTP bool `json:"http,omitempty"`
 }
 
 var store *stor.Store
@@ -40,8 +43,24 @@ func pow10(l int) int64 {
 	return w
 }
 
+var httpSrv *httpstor.Server
+
+func getHTTP() *httpstor.Server {
+	if httpSrv == nil {
+		dir := fmt.Sprintf("/tmp/tree-b-c13http-%d", os.Getpid())
+		os.RemoveAll(dir)
+		s, err := httpstor.Open(dir)
+		if err != nil {
+			panic(err)
+		}
+		httpSrv = s
+	}
+	return httpSrv
+}
+
 func gen(r *rand.Rand, idx int, tier string) Input {
 	var in Input
+	in.HTTP = (tier == "thorough" && idx%3 == 1) || (tier != "thorough" && idx%12 == 5)
 	app := stor.UniqueApp("tl", idx, 0)
 	series := stor.RandSeries(r, app, 1+r.Intn(3))
 	// timeline bucket level of the main query
@@ -116,6 +135,9 @@ func gen(r *rand.Rand, idx int, tier string) Input {
 }
 
 func run(in Input) lib.Result {
+	if in.HTTP {
+		return runHTTP(in)
+	}
 	st := getStore()
 	hops := []string{}
 	crash := ""
@@ -149,7 +171,43 @@ func run(in Input) lib.Result {
 		NonTrivial: nonzero >= 2 || maxDelta > 10,
 		Crash:      crash,
 		Feat: map[string]interface{}{"max_bucket_s": maxDelta, "entries": entries, "nonzero_entries": nonzero,
-			"offgrid_gets": offgrid, "ops": len(in.Ops)},
+			"offgrid_gets": offgrid, "ops": len(in.Ops), "via_http": false},
+	}
+}
+
+func runHTTP(in Input) lib.Result {
+	hs := getHTTP()
+	hops := []string{}
+	crash := ""
+	maxDelta := int64(0)
+	entries, nonzero, offgrid := 0, 0, 0
+	for _, op := range in.Ops {
+		res := hs.Apply(op)
+		if strings.HasPrefix(res.Err, "PANIC") {
+			crash = res.Err
+		}
+		hops = append(hops, httpstor.CoqHop(op, res))
+		if g := res.Get; op.Kind == "get" && g != nil && !g.Nil {
+			if g.TLDelta > maxDelta {
+				maxDelta = g.TLDelta
+			}
+			entries += len(g.TLSamples)
+			for _, v := range g.TLSamples {
+				if v != 0 {
+					nonzero++
+				}
+			}
+			if g.TLDelta > 0 && (g.TLStart+stor.UnixOffset)%g.TLDelta != 0 {
+				offgrid++
+			}
+		}
+	}
+	return lib.Result{
+		Coq:        "{| c_ops := " + lib.List(hops) + " |}",
+		NonTrivial: nonzero >= 2 || maxDelta > 10,
+		Crash:      crash,
+		Feat: map[string]interface{}{"max_bucket_s": maxDelta, "entries": entries, "nonzero_entries": nonzero,
+			"offgrid_gets": offgrid, "ops": len(in.Ops), "via_http": true},
 	}
 }
 
@@ -157,6 +215,9 @@ func main() {
 	defer func() {
 		if store != nil {
 			store.Destroy()
+		}
+		if httpSrv != nil {
+			httpSrv.Destroy()
 		}
 	}()
 	lib.Main(lib.Harness[Input]{Prop: "C13", Quick: 200, Thorough: 3000, Gen: gen, Run: run})
